@@ -37,11 +37,11 @@ def specs():
             dict(name="c11_values", srcs="c11_values.cpp", cfg="asan", rapidcheck=True, extra=nofc)]
 
 
-REGRESSIONS = [("write:largest-doubles-print-as-out-of-range", os.path.join(HERE, "replays", ID, "known-largest-double-roundtrip.case"))]
+REGRESSIONS = [("write:largest-doubles-print-as-out-of-range", os.path.join(HERE, "replays", ID, "known-c11_values-largest-double-roundtrip.case"))]
 
-# budgets are case counts (measured on this machine under load: ~700 fuzz execs/s per process, 5-7 ms per rapidcheck tree/document)
-QUICK = dict(fuzz_units=6, fuzz_runs=40000, rt=(5, 2500), docs=(4, 4000), ex=(1, 20000))
-THOROUGH = dict(fuzz_units=8, fuzz_runs=500000, rt=(4, 40000), docs=(3, 80000), ex=(1, 400000))
+# budgets are case counts (measured: 700-1500 fuzz execs/s per process, 2.5-7 ms per rapidcheck tree/document depending on machine load)
+QUICK = dict(fuzz_units=6, fuzz_runs=40000, rt=(5, 4000), docs=(4, 5000), ex=(1, 20000))
+THOROUGH = dict(fuzz_units=8, fuzz_runs=400000, rt=(4, 40000), docs=(3, 80000), ex=(1, 400000))
 
 
 def _asan():
